@@ -98,6 +98,25 @@ def minimise(history: dict, prop_id: str, key: tuple, execu, *, budget_s: float 
                 break
             n = min(len(steps), n * 2)
 
+    # 2b. unused declarations and modules
+    if best.get("world"):
+        changed = True
+        while changed and time.time() < t_end:
+            changed = False
+            for mi, mod in enumerate(best["world"]["modules"]):
+                for di in range(len(mod["decls"]) - 1, -1, -1):
+                    name = mod["decls"][di]["n"]
+                    others = [d for m2 in best["world"]["modules"] for d in m2["decls"] if d is not mod["decls"][di]]
+                    if _mentions(best["steps"], name) or _mentions(others, name) or _mentions(best.get("meta"), name):
+                        continue
+                    h = copy.deepcopy(best)
+                    del h["world"]["modules"][mi]["decls"][di]
+                    h["world"]["modules"][mi].pop("src", None)
+                    if attempt(h):
+                        changed = True
+                        break
+                if changed:
+                    break
     # 3. faults inside steps
     for si in range(len(best["steps"])):
         if best["steps"][si].get("mid"):
@@ -124,29 +143,10 @@ def minimise(history: dict, prop_id: str, key: tuple, execu, *, budget_s: float 
             if fld in best["steps"][si]:
                 _shrink_value(best, si, fld, attempt, lambda: best, t_end)
 
-    # 6. unused declarations and modules
-    if best.get("world"):
-        changed = True
-        while changed and time.time() < t_end:
-            changed = False
-            for mi, mod in enumerate(best["world"]["modules"]):
-                for di in range(len(mod["decls"]) - 1, -1, -1):
-                    name = mod["decls"][di]["n"]
-                    others = [d for m2 in best["world"]["modules"] for d in m2["decls"] if d is not mod["decls"][di]]
-                    if _mentions(best["steps"], name) or _mentions(others, name) or _mentions(best.get("meta"), name):
-                        continue
-                    h = copy.deepcopy(best)
-                    del h["world"]["modules"][mi]["decls"][di]
-                    h["world"]["modules"][mi].pop("src", None)
-                    if attempt(h):
-                        changed = True
-                        break
-                if changed:
-                    break
     return best, best_v, tried
 
 
-_SHRINKABLE = ("$list", "$set", "$frozenset", "$deque", "$dict", "$odict")
+_SHRINKABLE = ("$list", "$set", "$frozenset", "$deque")  # never $dict: it may be a TypedDict / fixed shape
 
 
 def _paths(v, path=()):
